@@ -239,6 +239,14 @@ func setupExtsImpl() {
 		case xkMsg:
 			x.TypeName = proto.String(".google.protobuf.Int64Value")
 		}
+		// two of them are declared inside message scopes under the SAME short name (the "eventExt" idiom): only their
+		// full names and numbers tell them apart
+		if k == xkStr || k == xkBool {
+			x.Name = proto.String("scoped_ext")
+			fdp.MessageType = append(fdp.MessageType, &descriptorpb.DescriptorProto{Name: proto.String(fmt.Sprintf("Scope%d", n)),
+				Extension: []*descriptorpb.FieldDescriptorProto{x}})
+			continue
+		}
 		fdp.Extension = append(fdp.Extension, x)
 	}
 	{
@@ -253,8 +261,16 @@ func setupExtsImpl() {
 	extNums = append(append([]int32{}, v2Nums...), v1Nums...)
 	fd, err := protodesc.NewFile(fdp, protoregistry.GlobalFiles)
 	hx.Must(err)
+	var xds []protoreflect.ExtensionDescriptor
 	for i := 0; i < fd.Extensions().Len(); i++ {
-		xd := fd.Extensions().Get(i)
+		xds = append(xds, fd.Extensions().Get(i))
+	}
+	for i := 0; i < fd.Messages().Len(); i++ {
+		for j := 0; j < fd.Messages().Get(i).Extensions().Len(); j++ {
+			xds = append(xds, fd.Messages().Get(i).Extensions().Get(j))
+		}
+	}
+	for _, xd := range xds {
 		xt := dynamicpb.NewExtensionType(xd)
 		v2Exts[int32(xd.Number())] = xt
 		_ = protoregistry.GlobalTypes.RegisterExtension(xt)
@@ -463,6 +479,20 @@ func streamC12(r *hx.Rng) {
 			}
 		}
 	}
+	// ... and every ordered pair of distinct extensions set at the same time, then Range, Clear of the first, Range
+	for ri, fls := range [][]string{{"v2", "v1"}, {"gogo"}} {
+		for _, fl := range fls {
+			for _, a := range flNums[fl] {
+				for _, b := range flNums[fl] {
+					if a != b {
+						scripts = append(scripts, script{rts[ri], []xop{
+							{typ: "set", fl: fl, n: a, v: normCode(kindOf(a), 3)}, {typ: "set", fl: fl, n: b, v: normCode(kindOf(b), 4)}, {typ: "range"},
+							{typ: "get", fl: fl, n: a}, {typ: "get", fl: fl, n: b}, {typ: "clear", fl: fl, n: a}, {typ: "range"}, {typ: "has", fl: fl, n: b}}})
+					}
+				}
+			}
+		}
+	}
 	for i := 0; i < n+len(scripts); i++ {
 		rc := rts[i%len(rts)]
 		if i%len(rts) >= 2 && i%7 != 0 {
@@ -532,6 +562,26 @@ func streamC12(r *hx.Rng) {
 				o.typ = "has"
 			}
 			before := ownerSet(rc.rt, m)
+			if (rc.rt == "google" && o.fl == "v2" || rc.rt == "gogo" && o.fl == "gogo") && (scripted != nil && k == 5 || scripted == nil && r.Intn(6) == 0) {
+				// a SetExtension the owning runtime rejects (a value of the wrong Go type: error or, on protobuf-go, its panic)
+				// leaves the message as it was: same extensions set, same value for this one
+				snap := func() string {
+					return fmt.Sprint(ownerSet(rc.rt, m), csproto.HasExtension(m, d), guard(func() string { v, _ := csproto.GetExtension(m, d); return fromGo(v) }))
+				}
+				s0 := snap()
+				res := guard(func() string {
+					if err := csproto.SetExtension(m, d, struct{ NotAnExtensionValue int }{1}); err != nil {
+						return "err"
+					}
+					return "none"
+				})
+				sink.OracleN++
+				sink.Count("rejected-set-probe")
+				if s1 := snap(); s1 != s0 || res == "none" {
+					fail("a SetExtension that the owning runtime rejects (value of the wrong Go type) modified the message or reported success",
+						fmt.Sprintf("runtime=%s history=%s then set %s/%d to a struct value", rc.rt, strings.Join(toks, " "), o.fl, o.n), s0+" and an error", s1+" "+res, "ext-rejected-set")
+				}
+			}
 			rangeBad := ""
 			out := guard(func() string {
 				switch o.typ {
